@@ -318,8 +318,39 @@ class Controller:
         menu = [a, b, (a + b) / 2, a + (b - a) / 3, a + eps, b - eps]
         return self._pick('uniform', menu)
 
+    def random(self):
+        return self._pick('random', [0.0, 0.5, 0.999999, 0.25, 1e-9])
+
+    def randrange(self, start, stop=None, step=1):
+        if stop is None:
+            start, stop = 0, start
+        vals = list(range(start, stop, step))
+        if not vals:
+            raise ValueError('empty range for randrange()')
+        menu = vals if len(vals) <= 5 else sorted({vals[0], vals[1], vals[len(vals) // 2], vals[-2], vals[-1]})
+        return self._pick('randrange', menu)
+
+    def choices(self, population, weights=None, cum_weights=None, k=1):
+        return [self.choice(population) for _ in range(k)]
+
+    def sample(self, population, k):
+        pool = list(population)
+        out = []
+        for _ in range(k):
+            out.append(pool.pop(self._pick('sample', list(range(len(pool))))))
+        return out
+
+    def shuffle(self, x):
+        return None
+
+    def seed(self, *args, **kwargs):
+        return None
+
     def __getattr__(self, name):
-        raise AttributeError('random.%s is not modelled by the controller' % name)
+        # anything else of the random module: a fixed-seed generator (deterministic, not explored)
+        import random as _random
+        fallback = self.__dict__.setdefault('_fallback', _random.Random(12345))
+        return getattr(fallback, name)
 
 
 def _expected_targets(model, leaves_only, pre):
@@ -366,6 +397,8 @@ def _run_generation(model, leaves_only, pre, domkey, prefix):
     ctl = Controller(prefix)
     saved = gra.random
     gra.random = ctl
+    import random as _random
+    _random.seed(len(prefix) * 7919 + sum(prefix))     # if the module bypasses the seam: still deterministic
     out = []
     try:
         op = ops.GenerateRandomAttribute()
@@ -462,6 +495,16 @@ def _explore(model, leaves_only, pre, domkey, bound):
     c2, o2 = _run_generation(model, leaves_only, pre, domkey, [])
     if c1 is not None and (c1.choices != c2.choices or [f.clause for f in o1] != [f.clause for f in o2]):
         raise Divergence('default execution is not deterministic')
+    if c1 is not None and not c1.points and DOMAINS[domkey] not in (None, ((), ())) \
+            and any(n not in _expected_targets(model, leaves_only, pre)[1] for n in _expected_targets(model, leaves_only, pre)[0]):
+        # values were generated without a single call through the seam (the module no longer
+        # uses `random.<fn>`): the choice sequences cannot be enumerated; fall back to a fixed
+        # list of seeds of the global generator and only judge the values (not exhaustive).
+        for k in range(1, 25):
+            _c, o = _run_generation(model, leaves_only, pre, domkey, [0] * k)
+            executions[0] += 1
+            for f in o:
+                fails.setdefault(f.clause, f)
     engine.validated(executions[0])
     return list(fails.values())
 
